@@ -146,9 +146,17 @@ def enumerate_ops(max_params: int, max_resps: int, scratch_dir, bodies=None, par
         return list(ex.map(one, range(parts)))
 
 
+_HANGS = mp.Value("i", 0)
+
+
 def _replay_one(op):
+    if _HANGS.value >= 3:
+        return {"exc": "SKIPPED after 3 hangs"}
     doc = concretize(op)
-    data, exc = gen.parse(doc)
+    data, exc = gen.parse(doc, limit=4)
+    if exc == "HANG":
+        with _HANGS.get_lock():
+            _HANGS.value += 1
     if exc is not None or data is None:
         return {"exc": exc or "rejected"}
     from openapi_python_client.parser.errors import GeneratorError
@@ -158,6 +166,7 @@ def _replay_one(op):
 
 
 def replay_many(ops: list[dict]) -> list[dict]:
+    _HANGS.value = 0
     if len(ops) < 2000:
         return [_replay_one(o) for o in ops]
     with mp.get_context("fork").Pool(NCPU - 2) as pool:
